@@ -300,7 +300,7 @@ fn deviation_dfs(alpha: &Alphabet, prefix: &[u8], lv: usize, k: usize, done_len:
 
 pub const SIGMA: &[char] = &[
     'a', '1', '0', '-', '.', '*', '[', ']', '?', '|', '&', '!', '=', '<', '>', '@', '(', ')', '{', '}',
-    ',', ':', '"', '\'', '`', '\\', ' ', 'é',
+    ',', ':', '"', '\'', '`', '\\', ' ', 'é', '\n', '\u{1}',
 ];
 
 /// (c) all character strings of length <= k over `sigma` starting with `prefix`
